@@ -237,6 +237,12 @@ def check(pid, tier, seed, args, t0):
         stats = {"replay": args.replay}
     else:
         cases, stats = spec["gen"](tier, seed)
+        dropped = [(c, gens.out_of_domain(c)) for c in cases]
+        cases = [c for c, why in dropped if why is None]
+        dropped = [(c, why) for c, why in dropped if why is not None]
+        if dropped:
+            notes.append("generator produced %d case(s) with a literal outside the key type; dropped before execution (first: %s: %s)" % (
+                len(dropped), dropped[0][0][:60], dropped[0][1]))
         cases = load_corpus(pid, spec["kinds"]) + cases
     work = os.path.join(R.BUILD, "work-%s-%d" % (pid, os.getpid()))
     try:
@@ -300,7 +306,7 @@ def check(pid, tier, seed, args, t0):
         if (broken or diffs) and not violations:
             # proof or correspondence broken, judge found nothing: widen the search once
             extra, _ = spec["gen"]("thorough" if tier == "quick" else "thorough", seed + 977)
-            extra = extra[:4000]
+            extra = [c for c in extra if gens.out_of_domain(c) is None][:4000]
             i3, m3, jf3, js3, cr3 = R.run_component(comp["driver_mode"], extra, work, "search", exelist, driver, env)
             by3 = {case_id(l): l for l in extra}
             f3 = []
